@@ -2,6 +2,7 @@ package main
 
 import (
 	"fmt"
+	"net"
 	"sort"
 	"go/ast"
 	"go/constant"
@@ -46,9 +47,11 @@ func (e *Engine) VerifyFunc(fn *ssa.Function, con *Contract) (g *Gen, err error)
 	}
 	g.collectSelectors()
 	g.prescanLocals()
+	g.prescanCalls()
 	g.decls = append(g.decls, "(declare-fun brk0 () Int)")
 	g.assert("(> brk0 0)")
 	g.init = &State{heap: map[string]string{}, ghost: map[string]string{}}
+	g.cur = g.init
 	g.curGuard = "true"
 
 	// parameters and free variables
@@ -58,7 +61,11 @@ func (e *Engine) VerifyFunc(fn *ssa.Function, con *Contract) (g *Gen, err error)
 	}
 	idx := 0
 	bind := func(v ssa.Value, kind string) {
-		c := g.declare(fmt.Sprintf("%s.%s", kind, v.Name()), g.st.sortOf(v.Type()))
+		pname := v.Name()
+		if pname == "_" || pname == "" {
+			pname = fmt.Sprintf("_%d", idx)
+		}
+		c := g.declare(fmt.Sprintf("%s.%s", kind, pname), g.st.sortOf(v.Type()))
 		val := &Val{T: c, Ty: v.Type()}
 		g.vals[v] = val
 		g.assumeTypeInv(val, "brk0")
@@ -419,6 +426,9 @@ func (g *Gen) strConst(s string) string {
 		g.strs[k] = id
 		// string constants are distinct small positive integers above 3000000
 		g.ctx = append(g.ctx, fmt.Sprintf("(assert (= (strlen %d) %d))", 3000000+id, len(s)))
+		if ax := cidrAxiom(s, 3000000+id); ax != "" {
+			g.ctx = append(g.ctx, ax)
+		}
 	}
 	if s == "" {
 		return "0"
@@ -1242,6 +1252,9 @@ func (g *Gen) prescanLocals() {
 			if !isVar || v.IsField() || seen[v] {
 				continue
 			}
+			if v.Pkg() != nil && v.Parent() == v.Pkg().Scope() {
+				continue // package-level variable, not a local
+			}
 			seen[v] = true
 			byName[id.Name] = append(byName[id.Name], v)
 		}
@@ -1343,6 +1356,90 @@ func (g *Gen) checkSendSpecs(x *ssa.Send) {
 		g.oblige("send", label, t, g.pos(x), "send on ."+sp.Sel+" requires "+sp.Cl.Src)
 		if g.selectors["$sent:"+fname] {
 			g.cur.ghost["$sent:"+fname] = sx("+", g.ghostTerm(g.cur, "$sent:"+fname), "1")
+		}
+	}
+}
+
+// cidrAxiom: for a string constant that parses as a CIDR, the meaning of
+// (*net.IPNet).Contains for the network net.ParseCIDR yields, written out over
+// the candidate's bytes.  The parse is done here, with the same net.ParseCIDR the
+// code under verification calls (trusted: the engine and the program agree on it).
+func cidrAxiom(s string, id int) string {
+	_, n, err := net.ParseCIDR(s)
+	if err != nil || !strings.Contains(s, "/") {
+		return ""
+	}
+	ones, _ := n.Mask.Size()
+	nn := n.IP
+	v4 := len(nn) == 4
+	if len(nn) == 16 {
+		if x := nn.To4(); x != nil && len(n.Mask) == 16 {
+			// networkNumberAndMask would convert; none of conduit's tables use such a form
+			return ""
+		}
+	}
+	at := func(i int) string {
+		if v4 {
+			return fmt.Sprintf("(ite (= l 4) (select a (+ o %d)) (select a (+ o %d)))", i, 12+i)
+		}
+		return fmt.Sprintf("(select a (+ o %d))", i)
+	}
+	var conj []string
+	for i := 0; i < len(nn); i++ {
+		bits := ones - 8*i
+		if bits <= 0 {
+			break
+		}
+		if bits >= 8 {
+			conj = append(conj, fmt.Sprintf("(= %s %d)", at(i), nn[i]))
+		} else {
+			d := 1 << uint(8-bits)
+			conj = append(conj, fmt.Sprintf("(= (div %s %d) %d)", at(i), d, int(nn[i])/d))
+		}
+	}
+	mapped := "(and (= l 16) (= (select a (+ o 0)) 0) (= (select a (+ o 1)) 0) (= (select a (+ o 2)) 0) (= (select a (+ o 3)) 0) (= (select a (+ o 4)) 0) (= (select a (+ o 5)) 0) (= (select a (+ o 6)) 0) (= (select a (+ o 7)) 0) (= (select a (+ o 8)) 0) (= (select a (+ o 9)) 0) (= (select a (+ o 10)) 255) (= (select a (+ o 11)) 255))"
+	var dom string
+	if v4 {
+		dom = "(or (= l 4) " + mapped + ")"
+	} else {
+		dom = "(and (= l 16) (not " + mapped + "))"
+	}
+	body := and(append([]string{dom}, conj...)...)
+	return fmt.Sprintf("(assert (is_valid_cidr %d))\n(assert (forall ((a (Array Int Int)) (o Int) (l Int)) (! (= (cidr_contains %d a o l) %s) :pattern ((cidr_contains %d a o l)))))", id, id, body, id)
+}
+
+// prescanCalls registers the result sorts of every call whose selector the
+// contract tracks, so result_of() is well-sorted on paths that have not (yet)
+// made the call (its value is then arbitrary; guard it with called()).
+func (g *Gen) prescanCalls() {
+	if g.ghostTypes == nil {
+		g.ghostTypes = map[string]types.Type{}
+	}
+	for _, b := range g.fn.Blocks {
+		for _, in := range b.Instrs {
+			var cc *ssa.CallCommon
+			switch x := in.(type) {
+			case *ssa.Call:
+				cc = &x.Call
+			case *ssa.Defer:
+				cc = &x.Call
+			}
+			if cc == nil {
+				continue
+			}
+			for _, name := range callNames(cc) {
+				if !g.selectors[name] {
+					continue
+				}
+				rs := cc.Signature().Results()
+				for ri := 0; ri < rs.Len(); ri++ {
+					gn := fmt.Sprintf("$res:%s:%d", name, ri)
+					if g.ghostSorts[gn] == "" {
+						g.ghostSorts[gn] = g.st.sortOf(rs.At(ri).Type())
+						g.ghostTypes[gn] = rs.At(ri).Type()
+					}
+				}
+			}
 		}
 	}
 }
